@@ -31,6 +31,14 @@ def slow_vector(J, scale=1.0, offset=0.0):
     return np.array([J[0] * scale, J[1] - offset, J[2] ** 2, J[0] * J[1]])
 
 
+def slow_scalar_fast(J):
+    return J[0] + 2 * J[1] + 3 * J[2]
+
+
+def slow_vector_fast(J):
+    return np.array([J[0], J[1] - J[2]])
+
+
 def quiet(f):
     with contextlib.redirect_stdout(io.StringIO()), contextlib.redirect_stderr(io.StringIO()):
         return f()
@@ -85,6 +93,19 @@ def run(ctx):
         if m.shape != got.shape or not np.allclose(m, got, atol=4e-16, rtol=0):
             brk(f"sampling points differ from the exact model ({len(got)} vs {len(m)} points)"); continue
         ctx.count("sampling_sets_compared_exactly")
+    # ---- the witnesses of fixed defect D13 (chunk miscount) and small point sets (fewer points than workers)
+    for N, nj in [(34, 7), (41, 7), (49, 11), (3, 16), (5, 8), (15, 16), (16, 15), (1, 4)] + ([] if quick else [(N, nj) for N in range(1, 60, 3) for nj in (2, 7, 11, 16)]):
+        P = np.random.default_rng(N).uniform(size=(N, 3))
+        for fn, fname in ((slow_scalar_fast, "scalar"), (slow_vector_fast, "vector")):
+            name = f"compute_phase_diagram({fname}, N={N}, n_jobs={nj})"
+            try:
+                data = quiet(lambda: pdg.compute_phase_diagram(P, fn, {}, n_jobs=nj))
+                want = np.array([fn(J) for J in P]).T
+                if data.shape != want.shape or not np.array_equal(data, want):
+                    ctx.impl_violation(f"{name}: parallel result (shape {data.shape}) differs from the serial evaluation (shape {want.shape})", dict(case=name, N=N, n_jobs=nj, fn=fname))
+            except Exception as ex:
+                ctx.impl_violation(f"{name}: raised {type(ex).__name__}: {ex}", dict(case=name, N=N, n_jobs=nj, fn=fname))
+            ctx.case((name,), nontrivial=True)
     # ---- parallel map
     pts, _ = pdg.get_non_symmetric_triangular_sampling_points(5 if quick else 7)
     jobs = [1, 2, 3, 5, 8, 16] if quick else list(range(1, 17))
